@@ -31,6 +31,22 @@ ASSUMPTIONS = [
 SELECTORS_MULTI = (None, "any", "mix", "avg", "average")
 
 
+def cancelling_window(rng, width, channels):
+    """every multi-channel sample adds up to exactly zero (a balanced pair next to unused channels, c2 = -(c0 + c1), ...): the
+    average channel is digital silence, whatever the amplitudes"""
+    lim_hi = A.LIM[width]
+    n = rng.choice((1, 2, 5, 16, 33))
+    samples = []
+    for _ in range(n):
+        vals = [rng.randint(-(lim_hi // channels), lim_hi // channels) for _ in range(channels - 1)]
+        if rng.random() < 0.3:
+            vals = [rng.choice((lim_hi // 2, -(lim_hi // 2), lim_hi // 3, 1))] + [0] * (channels - 2)
+        vals.append(-sum(vals))
+        rng.shuffle(vals)
+        samples += vals
+    return A.pack(samples, width), n
+
+
 def gen_window(rng, width, channels):
     lim_hi = A.LIM[width]
     lim_lo = -lim_hi - 1
@@ -387,7 +403,13 @@ def run_shard(ctx):
             width = rng.choice((1, 2, 4))
             channels = rng.choice((1, 2, 2, 3, 4))
             data, n = gen_window(rng, width, channels)
-            if channels > 1:
+            if i % 16 == 5:
+                channels = rng.choice((2, 3, 3, 4, 5, 6, 7))
+                data, n = cancelling_window(rng, width, channels)
+                ctx.count("windows_whose_channels_cancel_exactly")
+            if channels > 1 and i % 16 == 5:
+                uc = rng.choice(("mix", "avg", "average"))
+            elif channels > 1:
                 uc = rng.choice(SELECTORS_MULTI + tuple(range(-channels, channels)))
             else:
                 uc = rng.choice((None, "any", "mix", 0, -1, 3, "whatever"))
